@@ -472,6 +472,11 @@ def run_cart(c, tier, rng, rd, exe):
         if sorted(g["visit"]) != list(range(ncell)) or g["ncell"] != ncell:
             ok = c.violation("cart:enumeration:%s" % sig, "iterating the grid does not visit every cell exactly once (%d visits, %d cells)" % (
                 len(g["visit"]), ncell), info) and False
+        elif any(sorted(v) != sorted(g["visit"][b:e]) for b, e, v in g["blocks"]):
+            b, e, v = next(x for x in g["blocks"] if sorted(x[2]) != sorted(g["visit"][x[0]:x[1]]))
+            ok = c.violation("cart:block-enumeration:%s" % sig, "the block [%d, %d) of the cell range, traversed through the job market "
+                             "(DensityGrid::set_densities), touches the cells %s; the enumeration has %s there: not every cell of the "
+                             "block exactly once and no other" % (b, e, sorted(v)[:12], sorted(g["visit"][b:e])[:12]), info) and False
         elif abs(g["volsum"] - 1.) > 1e-12:
             ok = c.violation("cart:volume:%s" % sig, "cell volumes sum to %r times the box volume" % g["volsum"], info) and False
         elif g["loc"] != exp[i]["loc"]:
